@@ -60,7 +60,9 @@ class Unbound:
 
 
 class LoopSpec:
-    def __init__(self, inv, modifies_heap=True, label=None, extra_vars=()):
+    def __init__(self, inv, modifies_heap=True, label=None, extra_vars=(), frame_except=None):
+        self.frame_except = frame_except  # callable(ctx) -> list of refs (V) that the loop may modify; every other
+        #                                   object that existed at loop entry is proved unchanged by each iteration
         self.inv = inv                    # callable(ctx) -> z3 Bool  | list of (name, callable)
         self.modifies_heap = modifies_heap  # True: havoc whole heap; False: heap unchanged; callable(ctx_old, ctx_new)->Bool frame
         self.label = label
@@ -257,6 +259,8 @@ class Interp:
         k = z3.simplify(z3.Select(self.st.h.kind, V.id(v)))
         if z3.is_int_value(k):
             return k.as_long()
+        if ("kind", v.get_id()) in self.st.tags:
+            return self.st.tags[("kind", v.get_id())]
         mv = self.st.model_value(z3.Select(self.st.h.kind, V.id(v)))
         if mv is not None and z3.is_int_value(mv) and self.st.valid(z3.Select(self.st.h.kind, V.id(v)) == mv):
             return mv.as_long()
@@ -697,6 +701,11 @@ class Interp:
             if callable(spec.modifies_heap):
                 hc = LoopCtx(self, st, env, seq, None, entry)
                 st.assume(spec.modifies_heap(hc))
+            if spec.frame_except is not None:
+                hc = LoopCtx(self, st, env, seq, None, entry)
+                allowed = spec.frame_except(hc)
+                st.h = _framed_havoc(entry["h"], st.h, entry["nalloc"], allowed)
+                iter_h = st.h.copy()
         i = fresh("i", I)
         st.assume(i >= 0)
         which = st.choose(2, f"loop@{s.lineno}")
@@ -719,6 +728,8 @@ class Interp:
                 self.spec.oblige(self, f"{label}/step/{nm}", f(ctx1))
             if spec.modifies_heap is False:
                 self.spec.oblige(self, f"{label}/step/heap-unchanged", frame_eq(entry["h"], st.h, entry["nalloc"]))
+            elif spec.frame_except is not None:
+                self.spec.oblige(self, f"{label}/step/frame", frame_eq(iter_h, st.h, entry["nalloc"], allowed))
             raise PathEnd()
         else:
             st.assume(i == n)
@@ -842,6 +853,21 @@ class Interp:
         return v
 
     def e_Attribute(self, e, env):
+        if (e.attr == "__name__" and isinstance(e.value, ast.Call) and isinstance(e.value.func, ast.Name)
+                and e.value.func.id == "type" and len(e.value.args) == 1 and not e.value.keywords
+                and not env.lookup("type")[1]):
+            # type(x).__name__ : an uninterpreted observer of x's type (no case split on the constructor)
+            x = self.ev(e.value.args[0], env)
+            x = self.lower(x)
+            if isinstance(x, O.HExc):
+                c = self.lower(V.cls(x.cid))
+                if isinstance(c, O.ClassInfo):
+                    return vstr(c.name)
+                return vstr(z3.Function("ClsName", I, z3.StringSort())(x.cid))
+            if is_v(x):
+                t = self.tag(x, cheap=True)
+                if t is None or t == "obj":
+                    return vstr(z3.Function("TypeNameOf", V, z3.StringSort())(x))
         return self.getattr(self.ev(e.value, env), e.attr)
 
     def e_Subscript(self, e, env):
@@ -990,10 +1016,11 @@ class Interp:
             return self.identical(a, b)
         if isinstance(op, ast.IsNot):
             return z3.Not(self.identical(a, b))
-        if isinstance(op, ast.Eq):
-            return self.veq(a, b)
-        if isinstance(op, ast.NotEq):
-            return z3.Not(self.veq(a, b))
+        if isinstance(op, (ast.Eq, ast.NotEq)):
+            r = self.spec.eq_override(self, a, b)
+            if r is None:
+                r = self.veq(a, b)
+            return r if isinstance(op, ast.Eq) else z3.Not(r)
         if isinstance(op, ast.In):
             return self.models.contains(self, b, a)
         if isinstance(op, ast.NotIn):
@@ -1465,8 +1492,9 @@ def heap_eq(h1, h2):
     return z3.And(conj) if conj else z3.BoolVal(True)
 
 
-def frame_eq(h1, h2, n0):
-    """every object that existed when nalloc was n0 (id <= n0) has the same contents in h1 and h2"""
+def frame_eq(h1, h2, n0, except_refs=()):
+    """every object that existed when nalloc was n0 (id <= n0), other than `except_refs`, has the same
+    contents in h1 and h2"""
     r = z3.Int("r!frame")
     names = set(h1.fld) | set(h2.fld)
     for n in names:
@@ -1477,7 +1505,27 @@ def frame_eq(h1, h2, n0):
             conj.append(z3.Select(a, r) == z3.Select(b, r))
     if not conj:
         return z3.BoolVal(True)
-    return z3.ForAll([r], z3.Implies(r <= n0, z3.And(conj)))
+    guard = [r <= n0] + [r != V.id(x) for x in except_refs]
+    return z3.ForAll([r], z3.Implies(z3.And(guard), z3.And(conj)))
+
+
+def _framed_havoc(old, new, n0, allowed):
+    """heap that agrees with `old` on every object existing at n0 except `allowed`, and with the havocked
+    `new` elsewhere (defined by lambdas, so reads of framed objects reduce to the old contents)"""
+    r = z3.Int("r!fh")
+    keep = z3.And([r <= n0] + [r != V.id(x) for x in allowed])
+    names = set(old.fld) | set(new.fld)
+    for n in names:
+        old.field(n), new.field(n)
+    h = new.copy()
+    existed = r <= n0
+    for a in Heap.ARR:
+        k_ = existed if a in ("kind", "cls") else keep     # the kind/class of an object never changes
+        setattr(h, a, z3.Lambda([r], z3.If(k_, z3.Select(getattr(old, a), r), z3.Select(getattr(new, a), r))))
+    for n in names:
+        h.fld[n] = z3.Lambda([r], z3.If(keep, z3.Select(old.fld[n], r), z3.Select(new.fld[n], r)))
+        h.has[n] = z3.Lambda([r], z3.If(keep, z3.Select(old.has[n], r), z3.Select(new.has[n], r)))
+    return h
 
 
 def _havoc_heap(h, tag, floor=0):
